@@ -41,7 +41,14 @@ def run_property(prop: str, tier: str, only_rule: str | None = None, only_key: s
             err = "; ".join(ctx.floor_misses)
         ctx.notes.extend(ctx.floor_misses)
     except AnalysisError as exc:
-        err = str(exc)
+        # an anchor vanished / a construct left the decidable fragment.  With a violation already
+        # established the verdict is "violated" (exit 1) and this is a note; alone it is exit 2.
+        if ctx.findings:
+            ctx.notes.append(f"analysis incomplete after the reported violation(s): {exc}")
+            if not quiet:
+                print(f"NOTE property={prop} analysis incomplete after the reported violation(s): {exc}")
+        else:
+            err = str(exc)
     except Exception as exc:  # checker bug: never dress it up as a violation
         err = f"checker exception {type(exc).__name__}: {exc} :: " + traceback.format_exc().splitlines()[-3].strip()
         if os.environ.get("SA_DEBUG"):
